@@ -46,32 +46,42 @@ structure Lit where
 abbrev Opt := List Lit          -- comma separated: AND
 abbrev PlusLine := List Opt     -- space separated: OR
 
-/-- buildTagOk after the `!` has been stripped -/
+/-- the `unixOs` table of build.go (regenerated as `Generated.C17.unixOs`, tie `unix_tie`) -/
+def unixOsY : List String :=
+  ["aix","android","darwin","dragonfly","freebsd","hurd","illumos","ios","linux","netbsd","openbsd","solaris"]
+
+/-- build.go matchTag (fix c550b24): the words go/build satisfies from the context -/
+def matchTagY (c : Ctx) (name : String) : Bool :=
+  if c.cgo && name == "cgo" then true
+  else if name == c.goos || name == c.goarch || name == c.compiler then true
+  else if c.goos == "android" && name == "linux" then true
+  else if c.goos == "illumos" && name == "solaris" then true
+  else if c.goos == "ios" && name == "darwin" then true
+  else if name == "unix" && unixOsY.contains c.goos then true
+  else
+    let name := if name == "boringcrypto" then "goexperiment.boringcrypto" else name
+    c.tags.contains name
+
+/-- buildTagOk after the `!` has been stripped: matchTag, or a release word go1.1 … go1.minor
+    (fix 56f4c0c: canonical form, n ≥ 1) -/
 def tagOkY (c : Ctx) (t : TagName) : Bool :=
-  if c.tags.contains t.render then true
-  else if t.render == c.goos then true
-  else if t.render == c.goarch then true
+  if matchTagY c t.render then true
   else match t with
-    | .rel n => decide (n ≤ c.minor)
+    | .rel n => decide (1 ≤ n ∧ n ≤ c.minor)
     | .word _ => false
 
 def litOkY (c : Ctx) (l : Lit) : Bool := (tagOkY c l.name) != l.neg
 /-- buildOptionOk -/
 def optOkY (c : Ctx) (o : Opt) : Bool := o.all (litOkY c)
-/-- buildLineOk for a recognised `+build ` line -/
-def lineOkY (c : Ctx) (ln : PlusLine) : Bool := ln.any (optOkY c)
+/-- buildLineOk for a recognised `+build` line; a line without options stands for `ignore` (fix 5db3bf8) -/
+def lineOkY (c : Ctx) (ln : PlusLine) : Bool :=
+  match ln with
+  | [] => tagOkY c (.word "ignore")
+  | _ => ln.any (optOkY c)
 /-- buildOk: AND over all recognised lines of all comment groups -/
 def linesOkY (c : Ctx) (lns : List PlusLine) : Bool := lns.all (lineOkY c)
 
 /-! ### file-name rule (skipFile), on the `_`-separated elements of the name cut at its first dot -/
-
-/-- matchOsArch: is an OS / architecture word of a file name satisfied by the context -/
-def matchOsArchY (c : Ctx) (name : String) : Bool :=
-  name == c.goos || name == c.goarch ||
-  (c.goos == "android" && name == "linux") ||
-  (c.goos == "illumos" && name == "solaris") ||
-  (c.goos == "ios" && name == "darwin") ||
-  c.tags.contains name
 
 /-- the decision of skipFile once the name is known to end in `.go`, not to start with `_`/`.`:
     `isTest` = the base name (without `.go`) ends in `_test`; `elems` = the name cut at its first
@@ -85,10 +95,10 @@ def skipElemsY (k : Known) (c : Ctx) (isTest : Bool) (elems : List String) (skip
       let l := if l.getLast? == some "test" then l.dropLast else l
       match l.reverse with
       | [] => false
-      | [y] => if k.os.contains y || k.arch.contains y then !matchOsArchY c y else false
+      | [y] => if k.os.contains y || k.arch.contains y then !matchTagY c y else false
       | y :: x :: _ =>
-        if k.os.contains x && k.arch.contains y then !(matchOsArchY c y && matchOsArchY c x)
-        else if k.os.contains y || k.arch.contains y then !matchOsArchY c y
+        if k.os.contains x && k.arch.contains y then !(matchTagY c y && matchTagY c x)
+        else if k.os.contains y || k.arch.contains y then !matchTagY c y
         else false
 
 /-! ### raw layer -/
@@ -106,35 +116,30 @@ def classify (w : List Char) : Option TagName :=
     match Str.atoi? (w.drop 4) with
     | some n =>
       -- canonical decimal without sign or leading zeros ↦ rel; anything else that Atoi accepts
-      -- is compared numerically by yaegi as well, so it is still `rel`, but rendered differently:
-      -- we keep those as `none` (handled by `tagOkRaw` directly).
+      -- is `none` (handled by `tagLitRaw` directly: never a release word)
       if n ≥ 0 ∧ (toString n.toNat).toList == w.drop 4 then some (.rel n.toNat) else none
     | none => some (.word (Str.s w))
   else some (.word (Str.s w))
 
-/-- buildTagOk on the raw word (after splitting on `,`) -/
+def isValidTagChar (ch : Char) : Bool :=
+  ch.isAlphanum || ch == '_' || ch == '.' || ch.toNat > 127   -- unicode letters/digits are accepted too
+
+def isValidTag (w : List Char) : Bool := !w.isEmpty && w.all isValidTagChar
+
+/-- buildTagOk on the raw word (after splitting on `,`); a malformed word (`!`, `!!x`, empty, or with a
+    character that is not a letter, a digit, `_` or `.`) stands for `ignore` (fix 2 + fix 6) -/
+def wordOkRaw (c : Ctx) (w : List Char) : Bool :=
+  if !isValidTag w then matchTagY c "ignore"
+  else match classify w with
+    | some t => tagOkY c t
+    | none => matchTagY c (Str.s w)     -- non-canonical go1.<int> (go1.01): not a release word, only matchTag
+
 def tagLitRaw (c : Ctx) (w : List Char) : R :=
   match w with
-  | [] => .ok false                                 -- an empty word never matches (fix 2: was s[0] on "")
-  | ['!'] => .ok false                              -- "!" never matches
-  | '!' :: '!' :: _ => .ok false                    -- "!!x" never matches
-  | '!' :: rest =>
-    (match classify rest with
-      | some t => .ok (litOkY c ⟨true, t⟩)
-      | none =>
-          -- non-canonical go1.<int>: contains / goos / goarch / Atoi comparison
-          let s := Str.s rest
-          let r := c.tags.contains s || s == c.goos || s == c.goarch ||
-            (match Str.atoi? (rest.drop 4) with | some n => decide (n ≤ (c.minor : Int)) | none => false)
-          .ok (!r))
-  | _ =>
-    (match classify w with
-      | some t => .ok (litOkY c ⟨false, t⟩)
-      | none =>
-          let s := Str.s w
-          let r := c.tags.contains s || s == c.goos || s == c.goarch ||
-            (match Str.atoi? (w.drop 4) with | some n => decide (n ≤ (c.minor : Int)) | none => false)
-          .ok r)
+  | ['!'] => .ok (matchTagY c "ignore")
+  | '!' :: '!' :: _ => .ok (matchTagY c "ignore")
+  | '!' :: rest => .ok (!(wordOkRaw c rest))
+  | _ => .ok (wordOkRaw c w)
 
 def optOkRaw (c : Ctx) (o : List Char) : R :=
   let rec go : List (List Char) → R
@@ -146,26 +151,27 @@ def optOkRaw (c : Ctx) (o : List Char) : R :=
       | .ok true => go ws
   go (Str.splitOn ',' o)
 
-/-- buildLineOk -/
+/-- buildLineOk (fix 5db3bf8: white space as the toolchain reads it) -/
 def buildLineOkRaw (c : Ctx) (line : List Char) : R :=
-  if line.length < 7 || !(Str.hasPrefix "+build ".toList line) then .ok true
+  let line := Str.trim line
+  if !(Str.hasPrefix "+build".toList line) then .ok true
   else
-    let options := Str.splitOn ' ' (Str.trim (line.drop 6))
-    let rec go : List (List Char) → R
-      | [] => .ok false
-      | o :: os => match optOkRaw c o with
-        | .panic => .panic
-        | .err => .err
-        | .ok true => .ok true
-        | .ok false => go os
-    go options
+    let rest := line.drop 6
+    if !rest.isEmpty && (Str.trim rest).length == rest.length then .ok true
+    else
+      let options := Str.fields rest
+      if options.isEmpty then tagLitRaw c "ignore".toList
+      else
+        let rec go : List (List Char) → R
+          | [] => .ok false
+          | o :: os => match optOkRaw c o with
+            | .panic => .panic
+            | .err => .err
+            | .ok true => .ok true
+            | .ok false => go os
+        go options
 
 /-! ### `//go:build` expressions (go/build/constraint): grammar shared by the model and the spec -/
-
-def isValidTagChar (ch : Char) : Bool :=
-  ch.isAlphanum || ch == '_' || ch == '.' || ch.toNat > 127   -- unicode letters/digits are accepted too
-
-def isValidTag (w : List Char) : Bool := !w.isEmpty && w.all isValidTagChar
 
 inductive BExpr where
   | tag (s : String)
